@@ -43,13 +43,15 @@ template <> FP<long double> cb<long double>(int k) { return orc::chem_cb_l(k); }
 
 template <class S>
 static void run_solution(const orc::Sol& sol, const SolSpec& spec, uint64_t seed, long case0, long ncases, int npoints,
-                         const std::set<std::string>& classes, bool dl_compare) {
+                         const std::set<std::string>& classes, bool dl_compare, const std::string& handle = "h", bool reselect = false) {
   const std::string P = ST<S>::name();
   const double u = Eps<S>::u;
   const double precK = (sizeof(S) == 8) ? PREC_K_D : PREC_K_L;
-  set_ctx("init:" + sol.name, "masa_init<" + P + ">(\"h\", \"" + sol.name + "\")");
-  masa_init<S>("h", sol.name);
-  if (dl_compare) masa_init<long double>("h", sol.name);
+  set_ctx("init:" + sol.name, "masa_init<" + P + ">(\"" + handle + "\", \"" + sol.name + "\")");
+  CAP.begin();
+  if (reselect) masa_select_mms<S>(handle); else masa_init<S>(handle, sol.name);
+  if (dl_compare) { if (reselect) masa_select_mms<long double>(handle); else masa_init<long double>(handle, sol.name); }
+  CAP.end();
   std::vector<std::string> names = param_names<S>();
   std::vector<int> evs;
   for (auto& id : spec.prov) {
@@ -71,8 +73,11 @@ static void run_solution(const orc::Sol& sol, const SolSpec& spec, uint64_t seed
       masa_set_param<S>(n, val);
       if (dl_compare) masa_set_param<long double>(n, (long double)val);
       S back = masa_get_param<S>(n);
-      setv[n] = (long double)back;
-      base.P[n] = EQ::exact((orc::Q)back);
+      if (!biteq(back, val))
+        viol_once("C09", "parameter-not-stored-exactly:" + std::string(Eps<S>::tag), "masa_set_param<" + P + ">(\"" + n + "\") stored " + bits(back) + " for the value " + bits(val) + " (the " + P + " interface is limited to a narrower type)",
+                  JObj().str("solution", sol.name).str("parameter", n).num("passed", (long double)val).num("stored", (long double)back).done());
+      setv[n] = (long double)val;
+      base.P[n] = EQ::exact((orc::Q)val);   // the oracle evaluates for the value the user passed
       if (back == 0 || !seen.insert(fabsl((long double)back)).second) nontrivial = false;
     }
     LOG.count("parameter_vectors", 1);
@@ -254,14 +259,24 @@ int main(int argc, char** argv) {
   PREC_K_L = atof(getarg(argc, argv, "--kl", "64").c_str());
   std::set<std::string> classes;
   for (auto& s : split(getarg(argc, argv, "--classes", "source,exact,grad"), ',')) classes.insert(s);
-  for (auto& sn : split(getarg(argc, argv, "--sols"), ',')) {
-    if (sn.empty()) continue;
-    const orc::Sol* sol = orc::find(sn);
-    const SolSpec* spec = find_sol(sn);
-    if (!sol || !spec) harness_fail("no oracle/spec for solution " + sn);
-    if (prec == "d") run_solution<double>(*sol, *spec, seed, case0, ncases, npoints, classes, dl);
-    else run_solution<long double>(*sol, *spec, seed, case0, ncases, npoints, classes, false);
-    LOG.distinct("solutions", sn);
+  // --multi: every solution of the list lives on its own handle in ONE process (first pass: init, second pass: select back),
+  // so state shared between handles / bound at the first call is exposed
+  bool multi = hasflag(argc, argv, "--multi");
+  std::vector<std::string> sl;
+  for (auto& sn : split(getarg(argc, argv, "--sols"), ',')) if (!sn.empty()) sl.push_back(sn);
+  for (int pass = 0; pass < (multi ? 2 : 1); pass++) {
+    int hi = 0;
+    for (auto& sn : sl) {
+      const orc::Sol* sol = orc::find(sn);
+      const SolSpec* spec = find_sol(sn);
+      if (!sol || !spec) harness_fail("no oracle/spec for solution " + sn);
+      std::string handle = multi ? "h" + std::to_string(hi++) : "h";
+      long c0 = case0 + pass * ncases;
+      if (prec == "d") run_solution<double>(*sol, *spec, seed, c0, ncases, npoints, classes, dl, handle, pass == 1);
+      else run_solution<long double>(*sol, *spec, seed, c0, ncases, npoints, classes, false, handle, pass == 1);
+      LOG.distinct("solutions", sn);
+      if (multi) LOG.count("multi_handle_passes", 1);
+    }
   }
   LOG.count("comparisons", g_cmp);
   LOG.count("double_vs_longdouble_comparisons", g_dlcmp);
